@@ -38,6 +38,24 @@ type Request struct {
 	// requests are served meanwhile.
 	During   []Request `json:"during,omitempty"`
 	DuringAt string    `json:"during_at,omitempty"`
+	// Scheme, when set, selects the ...Scheme entry point of the endpoint
+	// (PostInboxScheme, NewActivityStreamsHandlerScheme, ...) with that scheme.
+	Scheme string `json:"scheme,omitempty"`
+	// PresetHeader is what the ResponseWriter's header map holds before the
+	// library sees it (set by middleware in front of the handler).
+	PresetHeader map[string][]string `json:"preset_header,omitempty"`
+	// Before changes the application's state right before this request:
+	// the pages GetInbox / GetOutbox answer with, the clock.
+	Before *Change `json:"before,omitempty"`
+}
+
+// Change is a change of the simulated application's state between requests.
+type Change struct {
+	InboxPage  interface{}            `json:"inbox_page,omitempty"`
+	OutboxPage interface{}            `json:"outbox_page,omitempty"`
+	ClockUnix  *int64                 `json:"clock_unix,omitempty"`
+	ClockNanos *int                   `json:"clock_nanos,omitempty"`
+	Put        map[string]interface{} `json:"put,omitempty"` // stored values replaced
 }
 
 // failingReader yields the first n bytes of b, then an error.
@@ -91,15 +109,17 @@ type Response struct {
 	Statuses    []int             `json:"statuses,omitempty"`
 	AppStatuses []int             `json:"app_statuses,omitempty"`
 	Header      map[string]string `json:"header,omitempty"`
-	Body        string            `json:"body,omitempty"`
-	Writes      int               `json:"writes,omitempty"`
-	WriteFailed bool              `json:"write_failed,omitempty"`
+	// HeaderAll holds every value of every response header (Header only the first)
+	HeaderAll   map[string][]string `json:"header_all,omitempty"`
+	Body        string              `json:"body,omitempty"`
+	Writes      int                 `json:"writes,omitempty"`
+	WriteFailed bool                `json:"write_failed,omitempty"`
 	// WriteBeforeStatus: the body was written before any WriteHeader (an
 	// implicit 200 went out first)
-	WriteBeforeStatus bool `json:"write_before_status,omitempty"`
-	SendID      string            `json:"send_id,omitempty"`
-	FirstEvent  int               `json:"first_event"`
-	LastEvent   int               `json:"last_event"`
+	WriteBeforeStatus bool   `json:"write_before_status,omitempty"`
+	SendID            string `json:"send_id,omitempty"`
+	FirstEvent        int    `json:"first_event"`
+	LastEvent         int    `json:"last_event"`
 	// Inner holds the responses of the requests served while this one was
 	// preempted (Request.During); InnerStuck is set when they did not return
 	// while this request waited (they are then joined after it returned).
@@ -198,6 +218,30 @@ func (w *World) Do(actor pub.FederatingActor, req Request, reqID string) (resp R
 		resp.LastEvent = len(w.Events())
 	}()
 	rw := NewRW()
+	for k, vs := range req.PresetHeader {
+		for _, v := range vs {
+			rw.H.Add(k, v)
+		}
+	}
+	if ch := req.Before; ch != nil {
+		w.mu.Lock()
+		if ch.InboxPage != nil {
+			w.InboxPage = ch.InboxPage
+		}
+		if ch.OutboxPage != nil {
+			w.OutboxPage = ch.OutboxPage
+		}
+		if ch.ClockUnix != nil {
+			w.Cfg.ClockUnix = *ch.ClockUnix
+		}
+		if ch.ClockNanos != nil {
+			w.Cfg.ClockNanos = *ch.ClockNanos
+		}
+		w.mu.Unlock()
+		for id, v := range ch.Put {
+			w.PutJSON(id, v)
+		}
+	}
 	var innerDone chan struct{}
 	if len(req.During) > 0 {
 		inner := make([]Response, len(req.During))
@@ -244,8 +288,10 @@ func (w *World) Do(actor pub.FederatingActor, req Request, reqID string) (resp R
 		if src == nil {
 			src = rw.H
 		}
+		resp.HeaderAll = map[string][]string{}
 		for k := range src {
 			resp.Header[k] = src.Get(k)
+			resp.HeaderAll[k] = append([]string{}, src[k]...)
 		}
 	}
 	if req.Kind == "Send" {
@@ -301,16 +347,24 @@ func (w *World) Do(actor pub.FederatingActor, req Request, reqID string) (resp R
 	var handled bool
 	switch req.Kind {
 	case "PostInbox":
-		handled, err = actor.PostInbox(c, rw, hr)
+		if req.Scheme != "" {
+			handled, err = actor.PostInboxScheme(c, rw, hr, req.Scheme)
+		} else {
+			handled, err = actor.PostInbox(c, rw, hr)
+		}
 	case "PostOutbox":
-		handled, err = actor.PostOutbox(c, rw, hr)
+		if req.Scheme != "" {
+			handled, err = actor.PostOutboxScheme(c, rw, hr, req.Scheme)
+		} else {
+			handled, err = actor.PostOutbox(c, rw, hr)
+		}
 	case "GetInbox":
 		handled, err = actor.GetInbox(c, rw, hr)
 	case "GetOutbox":
 		handled, err = actor.GetOutbox(c, rw, hr)
 	case "Handler":
-		h := pub.NewActivityStreamsHandler(DB{w}, Clock{w})
-		handled, err = h(c, rw, hr)
+		// one handler value per application, shared by all its requests
+		handled, err = w.handler(req.Scheme)(c, rw, hr)
 	default:
 		err = fmt.Errorf("HARNESS: unknown request kind %q", req.Kind)
 	}
@@ -376,4 +430,23 @@ func PostOutboxReq(outbox string, body interface{}) Request {
 }
 func GetReq(kind, u string) Request {
 	return Request{Kind: kind, URL: u, Header: map[string]string{"Accept": APHeader}}
+}
+
+// handler returns the world's ActivityStreams handler for a scheme, built once.
+func (w *World) handler(scheme string) pub.HandlerFunc {
+	w.mu.Lock()
+	defer w.mu.Unlock()
+	if w.handlers == nil {
+		w.handlers = map[string]pub.HandlerFunc{}
+	}
+	h, ok := w.handlers[scheme]
+	if !ok {
+		if scheme == "" {
+			h = pub.NewActivityStreamsHandler(DB{w}, Clock{w})
+		} else {
+			h = pub.NewActivityStreamsHandlerScheme(DB{w}, Clock{w}, scheme)
+		}
+		w.handlers[scheme] = h
+	}
+	return h
 }
